@@ -8,6 +8,7 @@ INVARIANT TypeOKSim
 INVARIANT InOrderOnce
 INVARIANT PagesWithinLimit
 INVARIANT Complete
+INVARIANT PageCount
 INVARIANT ScrollCleared
 INVARIANT NoUseAfterClear
 INVARIANT LatestPitId
